@@ -47,7 +47,9 @@ func ScanBuf(br *bufio.Reader) (imageType ImageType, err error) {
 // identified.
 func ReadAt(r io.ReaderAt) (imageType ImageType, err error) {
 	buf := [searchHeaderLength]byte{}
-	if _, err = r.ReadAt(buf[:], 0); err != nil {
+	// A ReaderAt may return io.EOF together with the last bytes of its source:
+	// a stream of exactly searchHeaderLength bytes is not a short one.
+	if n, err := r.ReadAt(buf[:], 0); err != nil && !(n == len(buf) && err == io.EOF) {
 		return ImageUnknown, err
 	}
 
